@@ -54,7 +54,6 @@ def recipe(c: Check):
         for name, least in (("keys_client", 45), ("keys_server", 50), ("loads", 190)):
             if lcs.get(name, 0) < least:
                 c.broken.append(dict(kind="coverage", name="legacy common counter %s = %s < %s" % (name, lcs.get(name, 0), least), detail=""))
-        c.notes.append("legacy ini keys honoured only together with their guard: %s" % json.dumps(lcs.get("guarded_keys_ignored_without_guard", {}), sort_keys=True))
         lv = f.get("unknown_field_levels") or {}
         for name, least in (("client:top.proxies[].plugin(sweep)", 20), ("client:top.visitors[].plugin(sweep)", 20)):
             if lv.get(name, 0) < least:
